@@ -21,6 +21,17 @@ Every case is history-aware: the methods are first called with one array holding
 hyper-parameter values, the array is overwritten in place and the compared calls use the
 same object.
 
+Representations (Matrix/SelectionRepr.v, Properties/C11Repr.v): every configuration is run again with the
+SAME numbers handed over in other representations -- hyper-parameters as lists / tuples of Python floats or
+NumPy scalars, data as lists, tuples, float32 / float16 arrays where the numbers fit -- and, on additional
+whole-number configurations (coordinates up to ~100, errors up to 20, integer log-hyper-parameters), as
+int8..int64 / uint8..uint64 arrays, lists / tuples of Python ints, int16 / float32 hyper-parameters.  For each
+variant the data the regressor stored (self.x, self.y, self.sig) and all outputs of the five functions go into
+the same Coq case (`repr_case`): validity of the representation, equality of the denoted numbers, stored data =
+the numbers (squares for y_err), outputs = the model's outputs for the baseline (seven obligations per
+variant, lib/c11_repr.py builds the objects).  Hyper-parameters in a carrier with single working precision
+(float32, int16: NumPy evaluates exp in float32) are compared with tolerances widened to 1e-3 of the scale.
+
 Property oracles, evaluated on the implementation:
   * REFIT: for each i the real GpRegressor is fitted again without point i (same
     hyper-parameters) and asked to predict at x_i; the leave-one-out predictions and
@@ -48,6 +59,7 @@ import numpy as np
 from lib import common as C
 from lib import interval as IV
 from lib import matrix as MX
+from lib import c11_repr as RP
 
 PROP = "C11"
 THEOREMS = ["C11_ml_value_algebra", "C11_value_and_gradient_same_value", "C11_ml_grad_trace_form",
@@ -56,8 +68,9 @@ THEOREMS = ["C11_ml_value_algebra", "C11_value_and_gradient_same_value", "C11_ml
             "C11_centre_in_starts", "C11_ml_value", "C11_loo_value_logs",
             "C11_ml_gradient_is_derivative_n2"]
 
-HEADER = MX.HEADER.format(mods="Matrix.GpModel Matrix.Selection Matrix.SelectionCheck")
+HEADER = MX.HEADER.format(mods="Matrix.GpModel Matrix.Selection Matrix.SelectionCheck Matrix.SelectionRepr")
 N_OBL = 10
+N_VAR_OBL = 7            # Matrix/SelectionRepr.v, var_obligations
 OBLIGATION_NAMES = {
     0: "model could not be evaluated (an inverse failed its run-time verification)",
     1: "cholesky(K_xx) is not a lower-triangular factor with positive diagonal of K_xx + sig",
@@ -69,6 +82,15 @@ OBLIGATION_NAMES = {
     7: "quadratic parts / value and value-and-gradient variants disagree",
     8: "det(K_xx + sig) differs from (prod L_ii)^2",
     9: "the two executable instances (BigOps, ListOps) of the model disagree on this case",
+}
+VAR_OBLIGATION_NAMES = {
+    0: "a represented input is not valid for its carrier (harness error) or theta's working precision is below single",
+    1: "the represented inputs do not denote the baseline's numbers (harness error)",
+    2: "the regressor did not store the data as the numbers given (self.x, self.y, self.sig = y_err^2 / y_cov / 0)",
+    3: "marginal_likelihood_gradient differs from the model",
+    4: "loo_predictions differ from the model",
+    5: "loo_likelihood_gradient differs from the model",
+    6: "a score value differs from the value for float64 arrays, or value and value-and-gradient variants disagree",
 }
 MS_NAMES = {0: "shapes of the recorded run", 1: "starting positions differ from lwr + (upr-lwr)*u ..., centre last",
             2: "selected hyper-parameters are not the first result of minimal cost",
@@ -356,6 +378,18 @@ def coq_case(case, out, cross=False):
     return "{| " + ";\n   ".join(f"{k} := {v}" for k, v in f) + " |}"
 
 
+def coq_repr_case(case, out, cross, vs):
+    """The baseline `sel_case`, the float64 arrays it was built from and the variants that ran (Matrix/SelectionRepr.v)."""
+    n, d = case["n"], case["d"]
+    ev = MX.unhex(case["err"]["values"]) if case["err"]["kind"] != "none" else np.zeros(0)
+    ok = [v for v in vs if v["status"] == "ok"]
+    assert len(ok) <= 12
+    f = [("rc_base", coq_case(case, out, cross)), ("rc_theta", MX.qvec(MX.unhex(case["hyperpars"]))),
+         ("rc_x", MX.qvec(MX.unhex(case["x"]))), ("rc_yraw", MX.qvec(MX.unhex(case["y"]))), ("rc_err", MX.qvec(ev)),
+         ("rc_vars", "[" + ";\n     ".join(RP.coq_variant(case, v["spec"], v, out["nm"]) for v in ok) + "]")]
+    return "{| " + ";\n   ".join(f"{k} := {v}" for k, v in f) + " |}"
+
+
 # ---------------------------------------------------------------- oracles on the implementation
 def central(fn, theta, p, h=H):
     e = np.zeros_like(theta)
@@ -363,8 +397,9 @@ def central(fn, theta, p, h=H):
     return (8 * (fn(theta + e) - fn(theta - e)) - (fn(theta + 2 * e) - fn(theta - 2 * e))) / (12 * h)
 
 
-def oracle(case, out):
-    """C11 on the implementation: list of (key, message)."""
+def oracle(case, out, widen=1.0):
+    """C11 on the implementation: list of (key, message).  `widen` > 1 only for hyper-parameters held in a
+    single-precision carrier (the kernels then work in single precision)."""
     bad = []
     gp, theta = out["gp"], out["theta"]
     t = tolerances(case, out)
@@ -387,21 +422,31 @@ def oracle(case, out):
     quad = float(MX.f_mul(MX.f_tr(r), MX.f_solve(A, r))[0][0])
     sign, logdet = np.linalg.slogdet(out["A"])
     want = -0.5 * quad - 0.5 * logdet
-    if sign <= 0 or abs(want - out["ml"]) > 1e-8 * max(1.0, abs(want)):
+    if sign <= 0 or abs(want - out["ml"]) > widen * 1e-8 * max(1.0, abs(want)):
         bad.append(("C11/marginal_likelihood-value",
                     f"marginal_likelihood = {out['ml']!r} but the log-density of the data (+ n/2 ln 2pi) is {want!r}"))
     if refit_supported(case):
         rm = np.array([float(v) for v in out["r_mu"]])
         rv = np.array([float(v) for v in out["r_var"]])
-        if float(np.abs(rm - out["loo_mu"]).max()) > 10 * t["m"] or float(np.abs(rv - out["loo_sig"] ** 2).max()) > 10 * t["v"]:
+        if float(np.abs(rm - out["loo_mu"]).max()) > widen * 10 * t["m"] or float(np.abs(rv - out["loo_sig"] ** 2).max()) > widen * 10 * t["v"]:
             bad.append(("C11/loo-predictions",
                         f"loo_predictions() = {out['loo_mu'].tolist()}, sigma^2 = {(out['loo_sig'] ** 2).tolist()} but refitting "
                         f"without each point predicts {rm.tolist()}, {rv.tolist()}"))
         want = float((-0.5 * ((out["y"] - rm) ** 2 / rv + np.log(rv))).sum())
-        if abs(want - out["loo"]) > 1e-6 * max(1.0, abs(want)) * case["n"]:
+        if abs(want - out["loo"]) > widen * 1e-6 * max(1.0, abs(want)) * case["n"]:
             bad.append(("C11/loo_likelihood-value",
                         f"loo_likelihood = {out['loo']!r} but the sum of the log-densities of the refit predictions is {want!r}"))
     return bad
+
+
+def variant_oracle(case, out, vo):
+    """The same oracles on the outputs obtained with the inputs in another representation: the true values
+    (log-density under the baseline's K_xx + sig, refit predictions) and the true gradient (central differences
+    of the value-only functions at the float64 hyper-parameters) do not depend on how the numbers were given."""
+    lowprec = RP.UFUNC_PREC[vo["spec"]["theta"][0]] < 53
+    pseudo = dict(out, **{k: vo[k] for k in ("gp", "ml", "mlg", "loo", "loog", "ml_grad", "loo_grad", "loo_mu", "loo_sig")})
+    how = " [inputs given: " + RP.describe_spec(vo["spec"]) + "]"
+    return [(key + "/representation", what + how) for key, what in oracle(case, pseudo, widen=1e4 if lowprec else 1.0)]
 
 
 # ---------------------------------------------------------------- [R] real optimiser runs
@@ -597,6 +642,7 @@ def run(rep: C.Report, tier: str) -> int:
     r = C.rng_for(PROP, "cases")
     n_cases = 63 if tier == "quick" else 630
     n_value = 16 if tier == "quick" else 120
+    n_whole = 14 if tier == "quick" else 84      # whole-number configurations (every integer carrier applies)
     C.clean_gen(PROP)
     C.prove_and_audit(rep, PROP, THEOREMS)
 
@@ -628,12 +674,35 @@ def run(rep: C.Report, tier: str) -> int:
         rep.violation("C11/proof", f"proof obligation no longer checks: {_e.what}",
                       {"theorem_or_correspondence": _e.what, "log": _e.log[-1000:]}, False)
 
-    cases, outs = [], []
-    for k in range(n_cases):
-        case = gen_case(r, k, tier)
+    try:      # inputs in other representations than float64 arrays (Matrix/SelectionRepr.v)
+        _repr = ["C11_repr_as_f64_exact", "C11_repr_scores_of_numbers", "C11_repr_scores_independent",
+                 "C11_repr_gradient_buffer_exact", "C11_repr_integer_buffer_truncates", "C11_repr_like_buffer_refuted",
+                 "C11_repr_pinned_data_refuted", "C11_repr_pinned_data_small", "C11_repr_example"]
+        _a = C.coq_audit("C11_repr", _repr, "IT.Properties.C11Repr")
+        rep.obligation(True, len(_repr))
+        rep.coverage["representation_theorems_audit"] = _a
+    except C.ProofFailure as _e:
+        rep.obligation(False, 9)
+        rep.violation("C11/proof", f"proof obligation no longer checks: {_e.what}",
+                      {"theorem_or_correspondence": _e.what, "log": _e.log[-1000:]}, False)
+
+    cases, outs, variants = [], [], []
+    rw = C.rng_for(PROP, "whole-number-cases")
+    for k in range(n_cases + n_whole):
+        case = gen_case(r, k, tier) if k < n_cases else \
+            RP.gen_whole_case(rw, k - n_cases, KERNELS, MEANS, ERRS, data_cov_float, COND_MAX)
         out = run_impl(case)
         cases.append(case)
         outs.append(out)
+        whole = bool(case.get("whole"))
+        vs = []
+        if out["status"] == "ok":
+            for spec in RP.plan_variants(case, k, whole, 6 if whole else 2):
+                vs.append(RP.run_variant(case, spec, GP()))
+                for role in ("theta", "x", "y", "err"):
+                    rep.count(f"{role}_given_as={spec[role][0]}/{spec[role][1]}")
+        variants.append(vs)
+        rep.count("whole_number_configuration" if whole else "dyadic_configuration")
         rep.count(f"n={case['n']}")
         rep.count(f"d={case['d']}")
         rep.count("kernel=" + MX.kernel_name(case["kernel"]))
@@ -670,9 +739,9 @@ def run(rep: C.Report, tier: str) -> int:
     for j, bucket in enumerate(buckets):
         if not bucket:
             continue
-        body = ("Definition cases : list sel_case :=\n [" +
-                ";\n  ".join(coq_case(cases[k], outs[k], k in cross) for k in bucket) + "].")
-        files.append(C.write_case_file(PROP, f"cases_{j}", HEADER, body, ["failing_sel cases"]))
+        body = ("Definition cases : list repr_case :=\n [" +
+                ";\n  ".join(coq_repr_case(cases[k], outs[k], k in cross, variants[k]) for k in bucket) + "].")
+        files.append(C.write_case_file(PROP, f"cases_{j}", HEADER, body, ["failing_repr cases"]))
         index.append(bucket)
 
     # ---- score values: coq-interval goals on n <= 4
@@ -717,7 +786,7 @@ def run(rep: C.Report, tier: str) -> int:
         failed, broken = fut_goals.result() if rc == 0 else ([], [log[-1500:]])
 
     ms_result = results.pop() if ms_file else None
-    n_checked = 0
+    n_checked = n_variants_checked = 0
     for pth, idx, (ok, res, log) in zip(files, index, results):
         if not ok or 0 not in res:
             rep.obligation(False, N_OBL * len(idx))
@@ -726,12 +795,20 @@ def run(rep: C.Report, tier: str) -> int:
             continue
         fails = MX.decode_failures(res[0])
         for j, k in enumerate(idx):
-            fo = fails.get(j, [])
+            fo_all = fails.get(j, [])
+            fo = [o for o in fo_all if o < N_OBL]
             rep.obligation(True, N_OBL - len(fo))
             if fo:
                 rep.obligation(False, len(fo))
                 obligation_fail[k] = fo
                 suspicious[k] = "; ".join(OBLIGATION_NAMES[o] for o in fo)
+            ran = [v for v in variants[k] if v["status"] == "ok"]
+            rep.obligation(True, N_VAR_OBL * len(ran) - len(fo_all) + len(fo))
+            rep.obligation(False, len(fo_all) - len(fo))
+            n_variants_checked += len(ran)
+            for o in fo_all:
+                if o >= N_OBL:
+                    ran[(o - N_OBL) // N_VAR_OBL].setdefault("failing", []).append((o - N_OBL) % N_VAR_OBL)
         n_checked += len(idx)
     rep.obligation(True, len(goals) - len(failed))
     rep.obligation(False, len(failed))
@@ -743,6 +820,8 @@ def run(rep: C.Report, tier: str) -> int:
         m = gmeta[gid]
         suspicious[m["case"]] = (suspicious.get(m["case"], "") + f"; score value goal {m['goal']} not proved").lstrip("; ")
     rep.coverage["cases_validated_against_impl"] = n_checked
+    rep.coverage["representation_variants_validated_against_impl"] = n_variants_checked
+    rep.coverage["obligations_per_representation_variant"] = VAR_OBLIGATION_NAMES
     rep.coverage["score_value_goals"] = len(goals)
     rep.coverage["score_value_goals_failed"] = len(failed)
     rep.coverage["correspondence_disagreements"] = len(suspicious)
@@ -773,6 +852,37 @@ def run(rep: C.Report, tier: str) -> int:
                           {"theorem_or_correspondence": "Matrix.SelectionCheck.check_sel / score value goals",
                            "failing_obligations": obligation_fail.get(k), "case": describe(case)}, False)
 
+    # ---- inputs in other representations: variants that did not run, or disagree with the model
+    n_corr = 0
+    for k in sorted(ok_idx, key=lambda k_: not cases[k_].get("whole")):      # whole-number configurations first
+        for v in variants[k]:
+            rcase = dict(describe(cases[k]), representation=v["spec"])
+            if v["status"] != "ok":
+                rep.obligation(False, N_VAR_OBL)
+                key = "C11/representation/" + v["status"]
+                if key not in reported:
+                    reported.add(key)
+                    rep.violation(key, f"the model-selection functions fail on valid inputs given as {RP.describe_spec(v['spec'])} "
+                                       f"({v['status']} in {v['stage']}: {v['error']}); the same numbers as float64 arrays are accepted",
+                                  {"case": rcase, "impl": {k2: v[k2] for k2 in ("status", "stage", "error")}}, True)
+                continue
+            if not v.get("failing"):
+                continue
+            names = "; ".join(VAR_OBLIGATION_NAMES[o] for o in sorted(set(v["failing"])))
+            bad = variant_oracle(cases[k], outs[k], v)
+            for key, what in bad:
+                if key not in reported:
+                    reported.add(key)
+                    rep.violation(key, what, {"case": rcase, "failing_obligations": sorted(set(v["failing"])),
+                                              "model_obligations": names, "returned_gradient_dtypes": v["grad_dtypes"]}, True)
+            if not bad and n_corr < 3:
+                n_corr += 1
+                rep.violation("C11/correspondence/representation",
+                              f"implementation and model disagree for inputs given as {RP.describe_spec(v['spec'])} ({names}), "
+                              "but the property was not seen to fail on this input",
+                              {"theorem_or_correspondence": "Matrix.SelectionRepr.check_repr", "case": rcase,
+                               "failing_obligations": sorted(set(v["failing"]))}, False)
+
     # ---- second opinion [R]: oracles on a slice of agreeing cases
     n_or = 0
     for k in ok_idx[::4 if tier == "quick" else 3]:
@@ -784,6 +894,18 @@ def run(rep: C.Report, tier: str) -> int:
                 reported.add(key)
                 rep.violation(key, what, {"case": describe(cases[k])}, True)
     rep.coverage["oracle_runs_on_agreeing_cases"] = n_or
+    n_or = 0
+    for k in ok_idx:           # ... and on the first agreeing variant of every whole-number configuration
+        if not cases[k].get("whole") or k in suspicious:
+            continue
+        for v in variants[k][:1 if tier == "quick" else 3]:
+            if v["status"] == "ok" and not v.get("failing"):
+                n_or += 1
+                for key, what in variant_oracle(cases[k], outs[k], v):
+                    if key not in reported:
+                        reported.add(key)
+                        rep.violation(key, what, {"case": dict(describe(cases[k]), representation=v["spec"])}, True)
+    rep.coverage["oracle_runs_on_agreeing_representation_variants"] = n_or
 
     large_part(rep, C.rng_for(PROP, "large"), tier)
 
@@ -835,6 +957,13 @@ def run(rep: C.Report, tier: str) -> int:
         "left-out observation (its own noise / jitter); mean functions are re-centred exactly; correlated observation "
         "noise (non-diagonal y_cov) is excluded from the refit comparison, not from the other obligations",
         "kernel / mean VALUES and their hyper-parameter gradients are inputs (tied to the code by C10)",
+        "inputs in other representations (Properties/C11Repr.v): proved for every rounding function that leaves "
+        "representable numbers alone -- conversion to float64 is exact for valid represented vectors (intN / uintN "
+        "ranges, integers below 2^53, floats of at most 53 bits), so every output depends on the numbers only, and the "
+        "float64 gradient buffer returns the computed components unchanged (a buffer made like theta would truncate: "
+        "refuted); exponent range of the float carriers is not modelled; NOT proved: the accuracy of the kernels for "
+        "hyper-parameters held in a single-precision carrier (float32, 16-bit integers) -- compared with tolerances "
+        "1e-3 of the scale; half-precision carriers (float16, 8-bit integers) are not exercised for theta, only for data",
         "ListOps (list-of-Q instance, verified Bareiss inverse) implements the same algebra as the MathComp instance: "
         "not proved, see DESIGN 2.3",
     ]
@@ -855,7 +984,13 @@ def run(rep: C.Report, tier: str) -> int:
              "factor; optimiser runs: 6 (quick) / 8 seeded real runs (L-BFGS-B multistart with ML and LOO criteria, "
              "differential evolution) + 8 / 24 runs of the real multistart selection under a scripted optimiser that "
              "meets the contract of C11_multistart_not_worse_than_centre and is otherwise arbitrary; every case "
-             "non-trivial; distinct = distinct configurations")
+             "non-trivial; distinct = distinct configurations; representations: 2 variants per configuration (theta as "
+             "list / tuple of Python floats or NumPy scalars; x, y, errors as lists, tuples, float32 / float16 arrays where "
+             "exact) + 14 (quick) / 84 whole-number configurations (n 3..5, coordinates 0..~100 in steps 1..20, y -6..6, "
+             "errors 1..20, integer log-hyper-parameters; all seven kernels, three means, four error kinds) with 6 variants "
+             "each cycling through int8..int64, uint8..uint64, float16/32/64 arrays, lists / tuples of Python ints, "
+             "floats, NumPy scalars for the data and int16/32/64, uint32/64, float32, Python ints / floats for theta "
+             "(every third variant changes theta only); counts under <role>_given_as=<carrier>/<container>")
 
 
 def replay(path):
@@ -880,6 +1015,17 @@ def replay(path):
     if out["status"] != "ok":
         print("implementation fails:", {k: out[k] for k in ("status", "stage", "error")})
         return 1
+    if "representation" in case:
+        vo = RP.run_variant(case, case["representation"], GP())
+        print("inputs given:", RP.describe_spec(case["representation"]))
+        if vo["status"] != "ok":
+            print("implementation fails:", {k: vo[k] for k in ("status", "stage", "error")})
+            return 1
+        bad = variant_oracle(case, out, vo)
+        print("marginal_likelihood", vo["ml"], "(float64 arrays:", out["ml"], ") gradient", vo["ml_grad"].tolist(),
+              "(float64 arrays:", out["ml_grad"].tolist(), ")")
+        print("property failures:", [w for _, w in bad])
+        return 1 if bad else 0
     bad = oracle(case, out)
     print("marginal_likelihood", out["ml"], "loo_likelihood", out["loo"])
     print("property failures:", [w for _, w in bad])
